@@ -117,6 +117,7 @@ pub fn run_program(b: &Value, id: u64) -> RunOut {
                     }
                 })));
                 let mut r: i64 = -1;
+                let outcome = std::panic::catch_unwind(std::panic::AssertUnwindSafe(|| {
                 match op {
                     "Insert" => {
                         let v = o["v"].as_u64().unwrap() as u32;
@@ -136,6 +137,13 @@ pub fn run_program(b: &Value, id: u64) -> RunOut {
                         clock2.advance(Duration::from_secs(o["d"].as_u64().unwrap()));
                     }
                     other => panic!("harness: unknown op {}", other),
+                }
+                }));
+                if outcome.is_err() {
+                    // a panic inside the library is data: record it and stop this thread
+                    log2.lock().unwrap_or_else(|e| e.into_inner())
+                        .push(json!({"ev": "Panic", "t": t + 1, "id": opid, "msg": crate::last_panic(), "during": op}));
+                    break;
                 }
                 log2.lock().unwrap().push(json!({"ev": "Ret", "t": t + 1, "id": opid, "r": r}));
             }
@@ -328,8 +336,16 @@ pub fn run_program(b: &Value, id: u64) -> RunOut {
             let _ = h.join();
         }
         // after the threads have stopped: maintenance to quiescence and the final observations
-        cache.sync();
-        cache.sync();
+        let fin = std::panic::catch_unwind(std::panic::AssertUnwindSafe(|| {
+            cache.sync();
+            cache.sync();
+        }));
+        if fin.is_err() {
+            log.lock().unwrap().push(json!({"ev": "Panic", "msg": crate::last_panic(), "during": "final sync"}));
+            let events = std::mem::take(&mut *log.lock().unwrap());
+            std::mem::forget(cache);
+            return RunOut { events, mismatch, abandoned, hang, steps };
+        }
         if measure {
             log.lock().unwrap().push(json!({"ev": "Overshoot", "count": max_count, "cap": cfg.cap, "threads": n,
                 "wlog": 384, "exact": true}));
